@@ -9,7 +9,9 @@
 //   average  = (sum of the last min(n,W) v_i) / (m * min(n,W))              (one long-double division)
 //   variance = (W * sum v^2 - (sum v)^2) / (W (W-1) m^2)    once n >= W      (one long-double division)
 //   available <=> n >= W
-//   ring     : size() == min(n,W), ring[k] == k-th most recent append since the last clear().
+//   ring     : size() == min(n,W), ring[k] == k-th most recent append since the last clear(); the
+//              appended item is the VALUE of the argument at the call, also when the argument is
+//              ring[k] itself or an unevaluated Eigen expression of the ring's own entries.
 // Samples are generated so that x*m is an exact integer, or is at least 1e-6 away from every
 // non-zero integer (|x*m| <= 1e8, so the rounding of the double product, <= 1.2e-8, cannot move
 // it across an integer): the truncation the statement talks about is then unambiguous.
@@ -26,6 +28,7 @@
 //             above the 0.25 calibration gate, hence 16).
 // Neither tolerance grows with the length of the history: drift would show up.
 #include <Eigen/Core>
+#include <array>
 #include <memory>
 #include "romea_core_common/containers/Eigen/RingOfEigenVector.hpp"
 #include "romea_core_common/monitoring/OnlineAverage.hpp"
@@ -230,7 +233,9 @@ static std::string ops_json(const std::vector<Op> & ops, size_t upto)
 }
 
 struct HistoryFacts {bool wrapped = false; bool reset_then_update = false; bool reset_mid_window = false;
-  int resets = 0; int updates = 0;};
+  int resets = 0; int updates = 0;
+  // ring only: appends whose argument aliases the ring's own state
+  int alias_appends = 0; bool alias_perm_of_evicted = false;};
 
 // ---------------------------------------------------------------------------------------------
 // statistics: drive one object through one history, checking after every operation.
@@ -365,6 +370,11 @@ static void note_facts(vh::Ctx & c, const HistoryFacts & hf, const char * prefix
   if (hf.wrapped) {c.cat(p + "_history_wrapped");}
   if (hf.reset_then_update) {c.cat(p + "_history_reset_then_data");}
   if (hf.reset_mid_window) {c.cat(p + "_history_reset_mid_window");}
+  if (hf.alias_appends > 0) {
+    c.cat(p + "_append_aliasing_own_entry");
+    c.count(p + "_alias_appends", (uint64_t)hf.alias_appends);
+  }
+  if (hf.alias_perm_of_evicted) {c.cat(p + "_append_permuting_expr_of_evicted_entry");}
   c.count(p + "_updates", (uint64_t)hf.updates);
   c.count(p + "_resets", (uint64_t)hf.resets);
 }
@@ -372,10 +382,24 @@ static void note_facts(vh::Ctx & c, const HistoryFacts & hf, const char * prefix
 // ---------------------------------------------------------------------------------------------
 // ring buffer
 // ---------------------------------------------------------------------------------------------
+// Arguments that alias the object's own state: about a third of the appends on a non-empty ring
+// pass ring[k] itself (by reference) or an UNEVALUATED Eigen expression of existing entries
+// (reverse, cyclic shift, negation, sum, scaling), k being the oldest entry -- the one a full
+// ring evicts -- 45 % of the time.  The appended item is the value of the argument at the call:
+// the reference model evaluates the same expression on its own copy of the entries before the append.
+struct AliasRec {int kind; int k; int j;};
+static const char * const ALIAS_NAME[] = {"append", "append:ring[k]", "append:ring[k].reverse()", "append:-ring[k]",
+  "append:ring[k]+ring[j]", "append:2*ring[k]", "append:ring[k].reverse()+ring[j]", "append:ring[k](cyclic shift)"};
+
 template<class V>
-static bool run_ring(vh::Ctx & c, int cap, const std::vector<Op> & ops, const char * cat, const char * tname,
-  HistoryFacts & hf)
+static bool run_ring(vh::Ctx & c, vh::Rng & ra, int cap, const std::vector<Op> & ops, const char * cat,
+  const char * tname, HistoryFacts & hf)
 {
+  typedef typename V::Scalar Sc;
+  constexpr int N = V::RowsAtCompileTime;
+  std::array<int, N> shift;
+  for (int d = 0; d < N; ++d) {shift[(size_t)d] = (d + 1) % N;}
+  std::vector<AliasRec> recs(ops.size(), AliasRec{0, 0, 0});
   RingOfEigenVector<V> ring((size_t)cap);
   std::vector<V, Eigen::aligned_allocator<V>> hist;     // everything appended since the last clear
   bool had_clear_after_data = false;
@@ -396,8 +420,45 @@ static bool run_ring(vh::Ctx & c, int cap, const std::vector<Op> & ops, const ch
       for (int d = 0; d < v.size(); ++d) {
         v(d) = (typename V::Scalar)(d == 0 ? (double)serial : ops[i].x + d);
       }
+      AliasRec ar{0, 0, 0};
+      const long long sz0 = std::min<long long>((long long)hist.size(), cap);
+      if (sz0 > 0 && ra.coin(0.35)) {
+        ar.kind = (int)ra.range(1, 7);
+        ar.k = ra.coin(0.45) ? (int)(sz0 - 1) : (int)ra.range(0, sz0 - 1);
+        ar.j = (int)ra.range(0, sz0 - 1);
+        const V mk = hist[hist.size() - 1 - (size_t)ar.k], mj = hist[hist.size() - 1 - (size_t)ar.j];   // model copies
+        V e;
+        switch (ar.kind) {
+          case 1: e = mk; break;
+          case 2: e = mk.reverse(); break;
+          case 3: e = -mk; break;
+          case 4: e = mk + mj; break;
+          case 5: e = Sc(2) * mk; break;
+          case 6: e = mk.reverse() + mj; break;
+          default: for (int d = 0; d < N; ++d) {e(d) = mk((d + 1) % N);} break;
+        }
+        // keep magnitudes bounded (repeated doubling / summing) so that no inf/NaN can arise
+        if (e.allFinite() && (double)e.cwiseAbs().maxCoeff() < 1e30) {v = e;} else {ar.kind = 0;}
+      }
+      recs[i] = ar;
+      const size_t k = (size_t)ar.k, j = (size_t)ar.j;
+      switch (ar.kind) {
+        case 0: ring.append(v); break;
+        case 1: ring.append(ring[k]); break;
+        case 2: ring.append(ring[k].reverse()); break;
+        case 3: ring.append(-ring[k]); break;
+        case 4: ring.append(ring[k] + ring[j]); break;
+        case 5: ring.append(Sc(2) * ring[k]); break;
+        case 6: ring.append(ring[k].reverse() + ring[j]); break;
+        default: ring.append(ring[k](shift)); break;
+      }
+      if (ar.kind != 0) {
+        ++hf.alias_appends;
+        if ((ar.kind == 2 || ar.kind == 6 || ar.kind == 7) && sz0 == cap && ar.k == (int)(sz0 - 1) && N > 1) {
+          hf.alias_perm_of_evicted = true;
+        }
+      }
       hist.push_back(v);
-      ring.append(v);
       ++hf.updates;
       if (had_clear_after_data) {hf.reset_then_update = true;}
       if ((int)hist.size() > cap) {hf.wrapped = true;}
@@ -406,24 +467,32 @@ static bool run_ring(vh::Ctx & c, int cap, const std::vector<Op> & ops, const ch
     const long long expect_size = std::min<long long>(n, cap);
     struct Frame
     {
-      const std::vector<Op> & ops; const HistoryFacts & hf; const RingOfEigenVector<V> & ring;
+      const std::vector<Op> & ops; const std::vector<AliasRec> & recs; const HistoryFacts & hf;
+      const RingOfEigenVector<V> & ring;
       const std::vector<V, Eigen::aligned_allocator<V>> & hist;
       const char * cat; const char * tname; int cap; bool pow2; size_t i; long long n; long long kbad; size_t sz;
       vh::Params params() const
       {
         return vh::Params{{"capacity", (double)cap}, {"capacity_is_pow2", pow2 ? 1.0 : 0.0},
           {"n_since_clear", (double)n}, {"clears", (double)hf.resets}, {"k", (double)kbad},
-          {"n_over_capacity", (double)(n - cap)}, {"op_index", (double)i}};
+          {"n_over_capacity", (double)(n - cap)}, {"op_index", (double)i},
+          {"alias_kind_of_failing_op", (double)recs[i].kind}, {"alias_appends", (double)hf.alias_appends}};
       }
       std::string wit() const
       {
         std::string o = "[";
-        for (size_t j = 0; j <= i; ++j) {if (j) {o += ",";} o += ops[j].reset ? "\"clear\"" : "\"append\"";}
+        for (size_t j = 0; j <= i; ++j) {
+          if (j) {o += ",";}
+          if (ops[j].reset) {o += "\"clear\""; continue;}
+          o += "\"" + std::string(ALIAS_NAME[recs[j].kind]);
+          if (recs[j].kind != 0) {o += " k=" + std::to_string(recs[j].k) + " j=" + std::to_string(recs[j].j);}
+          o += "\"";
+        }
         o += "]";
         return vh::J().s("cat", cat).s("element", tname).f("capacity", cap).f("failing_op", (uint64_t)i)
                .raw("ops", o).str();
       }
-    } F{ops, hf, ring, hist, cat, tname, cap, pow2, i, n, -1, ring.size()};
+    } F{ops, recs, hf, ring, hist, cat, tname, cap, pow2, i, n, -1, ring.size()};
     auto params = [&F]() {return F.params();};
     if (!c.expect("ring.size_is_min_n_capacity", (long long)F.sz == expect_size, "ring_size_mismatch", params,
       [&F]() {
@@ -455,16 +524,16 @@ static bool run_ring(vh::Ctx & c, int cap, const std::vector<Op> & ops, const ch
   return true;
 }
 
-static bool run_ring_typed(vh::Ctx & c, int type, int cap, const std::vector<Op> & ops, const char * cat,
-  HistoryFacts & hf)
+static bool run_ring_typed(vh::Ctx & c, vh::Rng & ra, int type, int cap, const std::vector<Op> & ops,
+  const char * cat, HistoryFacts & hf)
 {
   switch (type) {
-    case 0: return run_ring<Eigen::Vector2d>(c, cap, ops, cat, "Vector2d", hf);
-    case 1: return run_ring<Eigen::Vector3d>(c, cap, ops, cat, "Vector3d", hf);
-    case 2: return run_ring<Eigen::Vector4d>(c, cap, ops, cat, "Vector4d", hf);
-    case 3: return run_ring<Eigen::Vector2f>(c, cap, ops, cat, "Vector2f", hf);
-    case 4: return run_ring<Eigen::Vector3f>(c, cap, ops, cat, "Vector3f", hf);
-    default: return run_ring<Eigen::Matrix<double, 6, 1>>(c, cap, ops, cat, "Vector6d", hf);
+    case 0: return run_ring<Eigen::Vector2d>(c, ra, cap, ops, cat, "Vector2d", hf);
+    case 1: return run_ring<Eigen::Vector3d>(c, ra, cap, ops, cat, "Vector3d", hf);
+    case 2: return run_ring<Eigen::Vector4d>(c, ra, cap, ops, cat, "Vector4d", hf);
+    case 3: return run_ring<Eigen::Vector2f>(c, ra, cap, ops, cat, "Vector2f", hf);
+    case 4: return run_ring<Eigen::Vector3f>(c, ra, cap, ops, cat, "Vector3f", hf);
+    default: return run_ring<Eigen::Matrix<double, 6, 1>>(c, ra, cap, ops, cat, "Vector6d", hf);
   }
 }
 
@@ -509,7 +578,8 @@ static void exhaustive_case(vh::Ctx & c, vh::Rng & r, uint64_t idx)
     HistoryFacts hf;
     bool ok;
     if (combo.cls == 2) {
-      ok = run_ring_typed(c, rtype, combo.W, ops, cat, hf);
+      vh::Rng ra(c.seed, idx, 100 + (uint64_t)tail);
+      ok = run_ring_typed(c, ra, rtype, combo.W, ops, cat, hf);
       note_facts(c, hf, "exh_ring");
     } else {
       StatCfg s{combo.cls == 1, combo.W, prec, via_set, cat};
@@ -588,7 +658,8 @@ static void one_case(vh::Ctx & c, uint64_t idx)
              .f("history_length", (uint64_t)ops.size()).f("clear_plan", plan_mode).str();
     });
   HistoryFacts hf;
-  run_ring_typed(c, type, cap, ops, cat, hf);
+  vh::Rng ra(c.seed, idx, 1);       // separate stream: which appends alias the ring's own entries
+  run_ring_typed(c, ra, type, cap, ops, cat, hf);
   note_facts(c, hf, "ring");
   c.distinct(h, hf.wrapped || hf.reset_then_update);
 }
